@@ -3,7 +3,7 @@
 usage: seedtest.py [dir-name-prefix ...] [--tier quick] [--lean]"""
 import sys, os, subprocess, json, time
 VERIF = os.path.dirname(os.path.dirname(os.path.abspath(__file__)))
-REPO = '/repo'
+REPO = os.environ.get('VERIF_REPO', '/repo')   # a scratch clone may be used so that /repo itself stays untouched
 
 
 def main():
